@@ -15,6 +15,9 @@ repo.setup()
 import ethosu.vela.vela as vela  # noqa: E402
 
 
+BUFFERS = {}
+
+
 def main():
     spec = json.load(open(sys.argv[1]))
     results = []
@@ -40,8 +43,16 @@ def main():
                     r["ok"] = os.path.exists(r["out_path"])
                 else:
                     os.chdir(st["outdir"])
-                    data = bytearray(open(st["model"], "rb").read())  # the delegate passes a bytearray / memoryview
+                    orig = open(st["model"], "rb").read()
+                    if st["entry"] == "convert_bytes_same_buffer":
+                        # the caller keeps one buffer per model and hands the very same object to every compilation of that model
+                        data = BUFFERS.setdefault(st["model"], bytearray(orig))
+                    elif st["entry"] == "convert_bytes_memoryview":
+                        data = memoryview(orig)  # read-only view
+                    else:
+                        data = bytearray(orig)  # the delegate passes a bytearray / memoryview
                     mv = vela.convert_bytes(data)
+                    r["input_modified"] = bytes(data) != orig
                     r["out_path"] = os.path.join(st["outdir"], "convert_bytes.tflite")
                     with open(r["out_path"], "wb") as f:
                         f.write(bytes(mv))
